@@ -1373,7 +1373,7 @@ def search(ck: Ck) -> None:
                     small = shrink_doc(doc, lambda d, o=opts: bool(roundtrip_fails(d, o)))
                     cls = roundtrip_fails(small, opts)
                     report(fail_key('roundtrip', small, cls), f'parse(serialise(t)) != t ({cls})', small, opts,
-                           {'text': impl_serialise(small, opts)})
+                           {'text': None if 'writer-raised' in cls else impl_serialise(small, opts)})
                     continue
                 if ref_text is None:
                     ref_text, ref_tokens, ref_strip = text, tokens_of(text), strip_blanks_outside_quotes(text)
@@ -1408,6 +1408,15 @@ def search(ck: Ck) -> None:
                 kv = build(doc[0])
                 o2 = rng.choice(OPTS_WS)
                 ntext, nerr = write_text(kv, o2)
+                if ntext is not None:       # serialise(file) on a named node: start_indent matters here
+                    buf = io.StringIO()
+                    try:
+                        to_file = guarded(kv.serialise, buf, **o2)
+                    except (ImplTimeout, Exception):       # noqa: BLE001
+                        to_file = 'raised'
+                    if to_file is not None or buf.getvalue() != ntext:
+                        report('serialise-to-file-differs', 'serialise(file) writes a different text than serialise()', doc[:1], o2,
+                               {'named': True})
                 got = impl_parse(ntext) if ntext is not None else ('err', 97, 'writer failed: ' + nerr)
                 if got != ('ok', [doc[0]]) and may_shrink('roundtrip-named-node', doc):
                     def named_fails(d, o=o2):
@@ -1757,17 +1766,25 @@ def replay(data: dict) -> int:
     doc = [tup(t) for t in r['doc']]
     opts = r.get('opts') or {}
     extra = r.get('extra') or {}
-    with warnings.catch_warnings():
-        warnings.simplefilter('ignore')
-        if extra.get('writer') == 'export':
-            text = ''.join(build_root(doc).export())
-        elif extra.get('named'):
-            text = build(doc[0]).serialise(**opts)
-        else:
-            text = build_root(doc).serialise(**opts)
+    text, werr = write_text(build(doc[0]) if extra.get('named') else build_root(doc), opts,
+                            'export' if extra.get('writer') == 'export' else 'serialise')
     print('tree      :', doc)
     print('options   :', opts)
+    if text is None:
+        print('writer    :', 'did not return within %.0f s' % IMPL_TIME_LIMIT if werr == 'hang' else 'raised ' + werr)
+        print('round trip: DIFFERS')
+        return 0
     print('text      :', repr(text))
+    if extra.get('writer') != 'export':
+        buf = io.StringIO()
+        try:
+            with warnings.catch_warnings():
+                warnings.simplefilter('ignore')
+                ret = guarded((build(doc[0]) if extra.get('named') else build_root(doc)).serialise, buf, **opts)
+            print('to a file :', 'same text, returns None' if ret is None and buf.getvalue() == text
+                  else f'DIFFERS: returns {ret!r}, writes {buf.getvalue()!r}')
+        except (ImplTimeout, Exception) as e:       # noqa: BLE001
+            print('to a file :', 'DIFFERS:', type(e).__name__)
     po = extra.get('parse_options')
     got = impl_parse(text, None, po)
     print('parse opts:', po or 'defaults')
